@@ -13,6 +13,7 @@ int main(void) {
   ZC(IWFS_ERROR_RESIZE_FAIL); ZC(IWFS_ERROR_NOT_MMAPED);
   ZV("FSM_IW_ERROR_INVALID_ARGS", IW_ERROR_INVALID_ARGS); ZV("FSM_IW_ERROR_OUT_OF_BOUNDS", IW_ERROR_OUT_OF_BOUNDS);
   ZV("FSM_IW_ERROR_OVERFLOW", IW_ERROR_OVERFLOW);
+  ZV("FSM_E_MAXOFF", IWFS_ERROR_MAXOFF); /* _exfile_ensure_size_lw / _exfile_write behind opts->exfile.maxoff */
   ZV("FSM_AUNIT", iwp_alloc_unit());
   ZV("FSM_DEFAULT_BPOW", 6 + 0 * sizeof(struct fsm)); /* literal of _fsm_init_impl, checked by T2 */
   ZV("FSM_BKEY_MAX", (uint32_t) -1);
